@@ -415,6 +415,12 @@ def call_by_contract(ex, c: Contract, pos, kw, st: State, site='') -> SV:
         ex.oblige('%s.pre.%s' % (tag, nm), st, f, 'call.pre', 'precondition %s of %s' % (nm, c.key))
         st.assume(f)
     # termination of recursion
+    if c.key == ex.contract.key and c.term_rel is not None and not ex.probing:
+        rel = c.term_rel(pre, CCtx(ex.h0, ex.h0, ex.args, ex.ghosts))
+        for (nm, f) in rel:
+            ex.oblige('%s.term.%s' % (tag, nm), st, f, 'term', 'recursive call decreases the well-founded measure')
+    elif c.key == ex.contract.key and c.decreases is None and not ex.probing:
+        ex.oblige('%s.term' % tag, st, z3.BoolVal(False), 'term', 'recursive call without a termination measure')
     if c.key == ex.contract.key and c.decreases is not None and not ex.probing:
         m_new = c.decreases(pre)
         m_old = ex.contract.decreases(CCtx(ex.h0, ex.h0, ex.args, ex.ghosts))
